@@ -32,8 +32,9 @@ PROP = {
             "fatal_is_violation": True,
             "floors": {"quick": {"decodes": 190000, "accepted": 59000, "rejected": 130000, "fixpoint_evals": 59000,
                                  "lossless_evals": 2280, "alloc_evals": 95000},
-                       "thorough": {"decodes": 11000000, "accepted": 3400000, "rejected": 7600000,
-                                    "fixpoint_evals": 3400000, "lossless_evals": 133000, "alloc_evals": 5500000}},
+                       "thorough": {"decodes": 6300000, "accepted": 1900000, "rejected": 4300000,
+                                    "fixpoint_evals": 1900000, "lossless_evals": 76000, "alloc_evals": 3200000}},
+            "watchdog": {"quick": 900, "thorough": 10800},
         },
         {
             "name": "lnwire_race", "pkg": "lnwire", "test": "TestVerifC10Race",
